@@ -347,6 +347,11 @@ class CallMixin:
                 else:
                     yield from self.call_attr(opt_inner(obj), attr, args, kwargs, st1, node)
             return
+        if isinstance(obj, Val) and isinstance(obj.ty, TRef) and attr == "__class__":
+            # self.__class__(...): the constructor of the declared class
+            self.note_assumption("`self.__class__` is the declared class %s (no instance of a subclass reaches the function)" % obj.ty.cls)
+            yield from self.call_value(Callable_("class", obj.ty.cls), args, kwargs, st, node)
+            return
         if isinstance(obj, Val) and isinstance(obj.ty, TRef) and getattr(dsl.REG.classes.get(obj.ty.cls), "record", None) and attr == "get":
             yield from self.rec_method(self.unbox_record(obj, st), attr, args, kwargs, st, node, None)
             return
